@@ -34,8 +34,10 @@ func New(seed []byte) kyber.XOF {
 		panic("blake2b.XOF.Write should not return error: " + err.Error())
 	}
 
-	seedCopy := make([]byte, len(seed2))
-	copy(seedCopy, seed2)
+	// keep the whole seed: Reset must also undo a Reseed, which replaces impl
+	// (and with it the key the hash was created with)
+	seedCopy := make([]byte, len(seed))
+	copy(seedCopy, seed)
 
 	return &xof{impl: b, seed: seedCopy}
 }
@@ -74,8 +76,12 @@ func (x *xof) Reseed() {
 }
 
 func (x *xof) Reset() {
-	x.impl.Reset()
-	_, _ = x.impl.Write(x.seed)
+	y := New(x.seed)
+	yXof, ok := y.(*xof)
+	if !ok {
+		panic("y could not be casted to XOF")
+	}
+	x.impl = yXof.impl
 }
 
 func (x *xof) XORKeyStream(dst, src []byte) {
